@@ -64,7 +64,7 @@ fn chain_batch(ctx: &mut Ctx, prop: &'static str, batch: &str, rule: &str, n: u6
         let mut cfg = gen_chain_cfg(rs, &opts);
         let mut r = Prng::sub(rs, "tweak");
         tweak(&mut cfg, &mut r);
-        ChainScenario { prop: prop.to_string(), cfg }
+        ChainScenario { prop: prop.to_string(), cfg, enumerate_faults: false }
     });
 }
 
@@ -95,6 +95,23 @@ fn c06(tier: Tier, seed: u64) -> i32 {
             let kind = *r.pick(&[crate::density::FaultKind::RecoverableErr, crate::density::FaultKind::NanLogp, crate::density::FaultKind::EnergyJump, crate::density::FaultKind::NegInfLogp]);
             cfg.faults.push(crate::density::Fault { at: r.below(400), kind });
         }
+    });
+    // every fault position of small runs: the boundary and the frozen kernel must hold whatever evaluation fails
+    let n4 = ctx.n(150, 6000);
+    let opts4 = SwarmOpts { allow_tune0: false, max_tune: 10, max_draws: 4, max_dim: 3, allow_hard_targets: false, ..Default::default() };
+    ctx.run_batch("enumerate_fault_positions", "small runs (num_tune 1..10, <= 4 draws after warmup, short trajectories): a recoverable density error and an energy jump are injected at every evaluation of the fault-free run in turn (strided beyond 160), and every resulting history is judged by the same oracle (tuning flags, frozen transformation and step size after warmup) - a fault exactly at the evaluation that starts a step-size search, on the last warmup draw, ...", n4, |rs, _| {
+        let mut cfg = gen_chain_cfg(rs, &opts4);
+        let mut r = Prng::sub(rs, "tweak");
+        match &mut cfg.preset {
+            crate::chain::Preset::DiagNuts(s) => s.maxdepth = s.maxdepth.min(3),
+            crate::chain::Preset::LowRankNuts(s) => s.maxdepth = s.maxdepth.min(3),
+            crate::chain::Preset::FlowNuts(s) => s.maxdepth = s.maxdepth.min(3),
+            _ => {}
+        }
+        let nt = r.range(1, 10);
+        retune(&mut cfg, nt);
+        cfg.faults.clear();
+        ChainScenario { prop: "C06".into(), cfg, enumerate_faults: true }
     });
     ctx.finish(
         "exploration",
@@ -178,7 +195,7 @@ pub fn selfcheck(seed: u64, n: u64) -> i32 {
     for i in 0..n {
         let rs = crate::prng::run_seed(seed, "selfcheck", "a", i);
         let cfg = gen_chain_cfg(rs, &SwarmOpts { allow_tune0: true, allow_dim0: true, ..Default::default() });
-        let sc = ChainScenario { prop: "C16".into(), cfg };
+        let sc = ChainScenario { prop: "C16".into(), cfg, enumerate_faults: false };
         let a = crate::driver::run_isolated(&sc, rs);
         let b = crate::driver::run_isolated(&sc, rs ^ 0x55); // different hash seed: engine A must not depend on it
         if a.digest != b.digest {
@@ -708,7 +725,7 @@ fn c18(tier: Tier, seed: u64) -> i32 {
             // recoverable-class faults at seeded evaluation indices: divergence position within a draw,
             // single and nested retries under dynamic step size
             for _ in 0..r.range(1, 6) {
-                let kind = *r.pick(&[crate::density::FaultKind::RecoverableErr, crate::density::FaultKind::NanLogp, crate::density::FaultKind::EnergyJump, crate::density::FaultKind::RecoverableErr]);
+                let kind = *r.pick(&[crate::density::FaultKind::RecoverableErr, crate::density::FaultKind::NanLogp, crate::density::FaultKind::EnergyJump, crate::density::FaultKind::RecoverableErr, crate::density::FaultKind::NanGrad, crate::density::FaultKind::RecoverableErr]);
                 let base = r.below(200);
                 cfg.faults.push(crate::density::Fault { at: base, kind });
                 if r.chance(0.5) {
